@@ -23,6 +23,7 @@ pub enum Role {
     ItemFlag,
     CtorIdx,
     StringId,
+    RefId,
     TypeTag,
     Payload,
 }
@@ -47,6 +48,7 @@ pub enum Why {
     BadChar(u16),
     BadValue(String),
     UnknownStringId(i64),
+    UnknownRefId(u32),
     UnknownCtor(u32),
     TransientCtor(String),
     FieldRemoved(String),
@@ -77,6 +79,8 @@ pub struct Decoder<'a> {
     pub buf: &'a [u8],
     pub reg: &'a Registry,
     pub strings: Vec<String>,
+    /// objects of the reference table, in id order (id = index + 1)
+    pub refs: Vec<String>,
     pub marks: Vec<Mark>,
     pub depth: u16,
     pub fuel: u64,
@@ -125,6 +129,7 @@ impl<'a> Decoder<'a> {
             buf,
             reg,
             strings: Vec::new(),
+            refs: Vec::new(),
             marks: Vec::new(),
             depth: 0,
             fuel: 2_000_000,
@@ -253,6 +258,35 @@ impl<'a> Decoder<'a> {
         }
     }
 
+    fn shared_strs(&mut self, cur: &mut Cur) -> R<Val> {
+        let n = self.marked_var_u32(cur, Role::Count)?;
+        let mut items = Vec::new();
+        for _ in 0..n {
+            self.tick()?;
+            let id = self.marked_var_u32(cur, Role::RefId)?;
+            if id == 0 {
+                let off = cur.pos;
+                let len = self.var_i32(cur)?;
+                if len < 0 {
+                    return Err(Why::NegLen(len as i64));
+                }
+                self.mark(off, cur.pos - off, Role::StrLen, len as i64);
+                let o2 = cur.pos;
+                let b = self.take(cur, len as usize)?;
+                self.mark(o2, len as usize, Role::Payload, 0);
+                let s = String::from_utf8(b.to_vec()).map_err(|_| Why::BadUtf8)?;
+                self.refs.push(s.clone());
+                items.push(Val::Str(s));
+            } else {
+                match self.refs.get(id as usize - 1) {
+                    Some(s) => items.push(Val::Str(s.clone())),
+                    None => return Err(Why::UnknownRefId(id)),
+                }
+            }
+        }
+        Ok(Val::Seq(items))
+    }
+
     fn byte_block(&mut self, cur: &mut Cur) -> R<Vec<u8>> {
         let len = self.marked_var_u32(cur, Role::BytesLen)?;
         let off = cur.pos;
@@ -313,6 +347,7 @@ impl<'a> Decoder<'a> {
             }
             Ty::Str => Val::Str(self.string(cur)?),
             Ty::DedupStr => Val::Str(self.dedup_string(cur)?),
+            Ty::SharedStrs => self.shared_strs(cur)?,
             Ty::Duration => {
                 let secs = self.fixed(cur, 8)? as u64;
                 let nanos = self.fixed(cur, 4)? as u32;
